@@ -32,11 +32,10 @@ fn main() {
 		for i in 0..n {
 			caseno += 1;
 			let nconns = rng.range(1, 3) as usize;
-			let cap = rng.range(1, 3) as u32;
 			let nops = rng.range(8, 40);
-			let eager = !rng.chance(1, 3);
-			let qcap = if eager { 1024 } else { rng.range(1, 4) as u32 };
-			let lines = run_generated(&mut out, &mut rng, caseno, eager, nconns, cap, qcap, nops, &pf);
+			let (mode, cap, qcap) = pick_config(&mut rng, 3, &[1, 2, 2, 3, 3, u32::MAX]);
+			let eager = mode != "manual";
+			let lines = run_generated(&mut out, &mut rng, caseno, mode, nconns, cap, qcap, nops, &pf);
 			if eager && bases.len() < (if thorough { 200 } else { 8 }) && i % 2 == 0 {
 				bases.push(lines);
 			}
